@@ -85,6 +85,9 @@ THEOREMS = {
         ("HH.C14.canonical", "same key + same stream, any chunkings, any back ends: identical 164 bytes = encode(key, bytes)"),
         ("HH.C14.idempotent", "from_checkpoint(c).checkpoint() = c for produced c"),
         ("HH.C14.buffer_field", "bytes 128..160 = pending bytes followed by zeros (no absorbed input)"),
+        ("HH.C14.count_field", "bytes 160..164 = LE32 of the pending count, which is < 32"),
+        ("HH.C14.injective", "equal checkpoint bytes ⇒ equal logical state (the encoding is faithful), any two back ends"),
+        ("HH.C14.equal_ckpt_equal_future", "equal checkpoints ⇒ equal digests (all widths) and equal later checkpoints after any chunk lists with the same concatenation"),
         ("HH.C14.legacy_leak", "kernel-checked witness of the fixed defect (stale bytes in the buffer)"),
     ]),
     "C08": dict(module="HH.Props.C08", trusted=MODEL_TRUST + ["HH/PortablePanic.lean: the panic points of src/internal.rs and src/portable.rs (slice/index/split_at/copy_from_slice checks; debug_assert and overflow checks in the debug profile) as transcribed", "no-panic crate + rustc/LLVM/lld for the link-time claim", "catch_unwind per op in the runner"], theorems=[
